@@ -346,11 +346,12 @@ def raw_gfa(draw, max_nodes=7, max_links=12, seq_mode="seq", link_tags=True, seg
 
 
 @st.composite
-def any_graph(draw, tier, real_fraction=8, max_window=30, **kw):
+def any_graph(draw, tier, real_fraction=8, max_window=30, real_with_seq=False, **kw):
     """rgfa(**kw), or - in the thorough tier, one case in `real_fraction` - a window of the real test graph."""
     if tier == "thorough" and draw(st.integers(0, real_fraction - 1)) == 0:
         from vf import realgraph
 
         n = realgraph.n_elements()
-        return realgraph.window(draw(st.integers(0, n - 3)), draw(st.integers(2, max_window)))
+        return realgraph.window(draw(st.integers(0, n - 3)), draw(st.integers(2, max_window)),
+                                seq_seed=draw(st.integers(0, 10**6)) if real_with_seq else None)
     return draw(rgfa(**kw))
